@@ -5,7 +5,7 @@ from core import World, hx, Line, unhx
 from gen import Gen, PUNCT_NAMES
 from suites import run_suite
 
-LEAN_MODULES = ['GoSnaps.Props.C11', 'GoSnaps.Props.Tie.Path', 'GoSnaps.Props.Tie.Wrappers']
+LEAN_MODULES = ['GoSnaps.Props.C11', 'GoSnaps.Props.Tie.Path', 'GoSnaps.Props.Tie.Wrappers', 'GoSnaps.Props.Tie.Caller']
 
 DIRS = ['-', 'snaps', 'a/b/__snapshots__', '../shared', './x/../y', '/abs/dir', '/abs/./d/../e/']
 FILES = ['-', 'custom', 'my_test', 'api.v1', 'with.two.dots']
